@@ -751,6 +751,10 @@ def replay(args):
         diffs = compare(r, o, mode[2], w)
         if got != exp_ret:
             diffs.append(('values_returned_to_device', exp_ret, got))
+        from fjv.ref import machine as R1
+        if r.cause in (R1.HORIZON, R1.NEED_INPUT):
+            print('the reference run leaves the bound (', r.cause, '): not a case of this check')
+            diffs = []
         print('DIFF' if diffs else 'same', diffs)
         bad = bool(diffs)
     elif rec['kind'] == 'screen-vs-decoder-model':
